@@ -36,8 +36,10 @@ class BodyError(Exception):
     pass
 
 
-def execute(m, p):
-    """Run the program as REAL Python: `with m.locked(...)`, requests through the manager, raise."""
+def execute(m, p, ctxs=None):
+    """Run the program as REAL Python: `with m.locked(...)`, requests through the manager, raise.
+    With `ctxs` (a dict) the context object of a datastore is created once and ENTERED AGAIN for every later `with` on that
+    datastore (`ctx = m.locked(t)` kept by the application): each entry must still be a full lock / unlock bracket."""
     from ncclient.xml_ import new_ele
     if p[0] == 'S':
         return
@@ -52,11 +54,17 @@ def execute(m, p):
         e.verif_kind = p[1]
         raise e
     if p[0] == ';':
-        execute(m, p[1])
-        execute(m, p[2])
+        execute(m, p[1], ctxs)
+        execute(m, p[2], ctxs)
         return
-    with m.locked(STORES[p[1]]):
-        execute(m, p[2])
+    if ctxs is None:
+        ctx = m.locked(STORES[p[1]])
+    else:
+        if p[1] not in ctxs:
+            ctxs[p[1]] = m.locked(STORES[p[1]])
+        ctx = ctxs[p[1]]
+    with ctx:
+        execute(m, p[2], ctxs)
 
 
 def reply(mid, ans, ev='m'):
@@ -82,7 +90,7 @@ class C13(Check):
     PROPS_MODULE = 'NcVerif.Props.C13'
     RULE = ('random bodies (requests, raise, sequencing, nested lock contexts on 4 datastore names incl. non-ASCII, depth <= 4) run as REAL '
             '`with m.locked(t):` blocks through Manager/LockContext/RPC on a stub session whose server answers each request by script '
-            '(ok / rpc-error severity error / warning-only); the sequence of requests seen by the server and the exception seen by the '
+            '(ok / rpc-error severity error / warning-only), in 30 % of the runs with ONE context object per datastore entered again for every later `with`; the sequence of requests seen by the server and the exception seen by the '
             'caller are compared with the model and with the property. Non-trivial = at least one lock context; distinct by (program, answers).')
     TRUST = ['the Python `with` statement semantics (enter/exit protocol) as modelled in Model/Lock.lean']
 
@@ -96,13 +104,15 @@ class C13(Check):
                {'prog': ['L', 0, ['Q', 1]], 'ans': ['e'], 'mode': 0},
                # nested contexts on different datastores
                {'prog': ['L', 0, ['L', 1, ['Q', 1]]], 'ans': [], 'mode': 2},
-               {'prog': ['L', 0, ['L', 1, ['R', 1]]], 'ans': [], 'mode': 2}]
+               {'prog': ['L', 0, ['L', 1, ['R', 1]]], 'ans': [], 'mode': 2},
+               # one context object entered twice: granted, then refused
+               {'prog': [';', ['L', 0, ['Q', 1]], ['L', 0, ['Q', 2]]], 'ans': ['o', 'o', 'o', 'e'], 'mode': 2, 'reuse': True}]
         for _ in range(n):
             p = gen_prog(rng)
             k = size(p) * 2
             ans = [rng.choice('ooooewwxy') for _ in range(rng.randint(0, k))]
             # the manager's raise mode: its default ALL most of the time (the mode users get), ERRORS, NONE
-            out.append({'prog': p, 'ans': ans, 'mode': rng.choice([2, 2, 1, 0])})
+            out.append({'prog': p, 'ans': ans, 'mode': rng.choice([2, 2, 1, 0]), 'reuse': rng.random() < 0.3})
         return out
 
     def search(self, tier, rng, broken):
@@ -121,7 +131,7 @@ class C13(Check):
         m, s, dh = make_manager(responder=responder, raise_mode=case.get('mode', 1))   # governs the body's own requests only
         exc = '-'
         try:
-            execute(m, case['prog'])
+            execute(m, case['prog'], {} if case.get('reuse') else None)
         except RPCError as e:
             exc = 'rpc:' + str(e.message).split('\n')[0].split(': ')[-1]
         except Exception as e:
